@@ -1900,6 +1900,9 @@ def replace_pad_by_hw_pad(op: Operation, arch, nng) -> Operation:
         pad_op = op.ifm.ops[0]
         if pad_op.type != Op.Pad or not pad_op.run_on_npu:
             return op
+        if op.read_offsets[0] is not None or op.read_shapes[0] is not None:
+            # The operation reads a part of the padded tensor (a lowered MEAN), given in the coordinates of that tensor
+            return op
         if pad_op.ifm.dtype != pad_op.ofm.dtype or not check_quantized_tens_scaling_equal(pad_op.ofm, pad_op.ifm):
             return op
         top, left, bottom, right = get_pad_values_from_input(pad_op.inputs[1].values)
